@@ -13,6 +13,7 @@ fn main() {
 	}
 	let engine = args[1].clone();
 	let mut opts = common::Opts {
+		engine: engine.clone(),
 		tier: "quick".into(),
 		seed: 1,
 		out: PathBuf::from("/verif/work/tmp"),
